@@ -13,7 +13,8 @@ theorem Data.ext' {v w : Data} (h1 : v.basic = w.basic) (h2 : v.storage = w.stor
 
 theorem basic_answer (b : Data) (c : CacheDB) (a : Addr) :
     (c.basic b a).2 = (c.view b).basic a := by
-  unfold CacheDB.basic CacheDB.view
+  unfold CacheDB.basic
+  simp only [CacheDB.view_def]
   cases h : c.accounts a with
   | some acc => simp [h]
   | none =>
@@ -28,13 +29,13 @@ theorem basic_view (b : Data) (hb : Consistent b) (c : CacheDB) (a : Addr) :
     simp only [h]
     apply Data.ext'
     · funext x
-      simp only [CacheDB.view, upd]
+      simp only [CacheDB.view_def, upd]
       by_cases hx : x = a
       · subst hx
         cases hbx : b.basic x <;> simp [h, hbx, DbAccount.ofOpt, DbAccount.infoOpt, DbAccount.newNotExisting, DbAccount.ofInfo]
       · simp [hx]
     · funext x k
-      simp only [CacheDB.view, upd]
+      simp only [CacheDB.view_def, upd]
       by_cases hx : x = a
       · subst hx
         cases hbx : b.basic x with
@@ -47,7 +48,8 @@ theorem basic_view (b : Data) (hb : Consistent b) (c : CacheDB) (a : Addr) :
 
 theorem storage_answer (b : Data) (hb : Consistent b) (c : CacheDB) (a : Addr) (k : Slot) :
     (c.storage b a k).2 = (c.view b).storage a k := by
-  unfold CacheDB.storage CacheDB.view
+  unfold CacheDB.storage
+  simp only [CacheDB.view_def]
   cases h : c.accounts a with
   | some acc =>
     simp only [h]
@@ -77,12 +79,12 @@ theorem storage_view (b : Data) (hb : Consistent b) (c : CacheDB) (a : Addr) (k 
       · simp only [hz]
         apply Data.ext'
         · funext x
-          simp only [CacheDB.view, upd]
+          simp only [CacheDB.view_def, upd]
           by_cases hx : x = a
           · subst hx; simp [upd, h, DbAccount.infoOpt]
           · simp [upd, hx]
         · funext x k'
-          simp only [CacheDB.view, upd]
+          simp only [CacheDB.view_def, upd]
           by_cases hx : x = a
           · subst hx
             by_cases hk : k' = k
@@ -98,12 +100,12 @@ theorem storage_view (b : Data) (hb : Consistent b) (c : CacheDB) (a : Addr) (k 
       simp only []
       apply Data.ext'
       · funext x
-        simp only [CacheDB.view, upd]
+        simp only [CacheDB.view_def, upd]
         by_cases hx : x = a
         · subst hx; simp [upd, h, hbx, DbAccount.infoOpt, DbAccount.newNotExisting]
         · simp [upd, hx]
       · funext x k'
-        simp only [CacheDB.view, upd]
+        simp only [CacheDB.view_def, upd]
         by_cases hx : x = a
         · subst hx; simp [upd, h, DbAccount.newNotExisting, AccState.zeroUnknown, hb.absent_zero x hbx k']
         · simp [upd, hx]
@@ -113,12 +115,12 @@ theorem storage_view (b : Data) (hb : Consistent b) (c : CacheDB) (a : Addr) (k 
       simp only []
       apply Data.ext'
       · funext x
-        simp only [CacheDB.view, upd]
+        simp only [CacheDB.view_def, upd]
         by_cases hx : x = a
         · subst hx; simp [upd, h, hbx, DbAccount.infoOpt, DbAccount.ofInfo]
         · simp [upd, hx]
       · funext x k'
-        simp only [CacheDB.view, upd]
+        simp only [CacheDB.view_def, upd]
         by_cases hx : x = a
         · subst hx
           by_cases hk : k' = k
@@ -130,7 +132,8 @@ theorem storage_view (b : Data) (hb : Consistent b) (c : CacheDB) (a : Addr) (k 
 
 theorem code_answer (b : Data) (c : CacheDB) (h : Hash) :
     (c.codeByHash b h).2 = (c.view b).code h := by
-  unfold CacheDB.codeByHash CacheDB.view
+  unfold CacheDB.codeByHash
+  simp only [CacheDB.view_def]
   cases hc : c.contracts h <;> simp [hc]
 
 theorem code_view (b : Data) (c : CacheDB) (h : Hash) :
@@ -144,7 +147,7 @@ theorem code_view (b : Data) (c : CacheDB) (h : Hash) :
     · rfl
     · rfl
     · funext x
-      simp only [CacheDB.view, upd]
+      simp only [CacheDB.view_def, upd]
       by_cases hx : x = h
       · subst hx; simp [hc]
       · simp [hx]
@@ -152,7 +155,8 @@ theorem code_view (b : Data) (c : CacheDB) (h : Hash) :
 
 theorem blockHash_answer (b : Data) (c : CacheDB) (n : Nat) :
     (c.blockHash b n).2 = (c.view b).blockHash n := by
-  unfold CacheDB.blockHash CacheDB.view
+  unfold CacheDB.blockHash
+  simp only [CacheDB.view_def]
   cases hc : c.blockHashes n <;> simp [hc]
 
 theorem blockHash_view (b : Data) (c : CacheDB) (n : Nat) :
@@ -167,7 +171,7 @@ theorem blockHash_view (b : Data) (c : CacheDB) (n : Nat) :
     · rfl
     · rfl
     · funext x
-      simp only [CacheDB.view, upd]
+      simp only [CacheDB.view_def, upd]
       by_cases hx : x = n
       · subst hx; simp [hc]
       · simp [hx]
@@ -190,6 +194,33 @@ theorem query_view (b : Data) (hb : Consistent b) (c : CacheDB) (q : Query) :
   | code h => simp [CacheDB.query, code_view]
   | blockHash n => simp [CacheDB.query, blockHash_view]
   | hasStorage a => simp [CacheDB.query]
+
+/-! ## the immutable path (`impl DatabaseRef for CacheDB`) against the mutable one -/
+
+theorem refQuery_answer (b : Data) (c : CacheDB) (q : DQuery) :
+    c.refQuery b q.toQuery = answer (c.view b) q := by
+  cases q <;> rfl
+
+/-- all five queries: the `_ref` method answers what the `&mut self` method answers -/
+theorem ref_eq_mut (b : Data) (hb : Consistent b) (c : CacheDB) (q : Query) :
+    c.refQuery b q = (c.query b q).2 := by
+  cases q with
+  | basic a => exact (refQuery_answer b c (.basic a)).trans (query_answer b hb c (.basic a)).symm
+  | storage a k => exact (refQuery_answer b c (.storage a k)).trans (query_answer b hb c (.storage a k)).symm
+  | code h => exact (refQuery_answer b c (.code h)).trans (query_answer b hb c (.code h)).symm
+  | blockHash n => exact (refQuery_answer b c (.blockHash n)).trans (query_answer b hb c (.blockHash n)).symm
+  | hasStorage a => rfl
+
+/-- what the mutable path caches never changes an answer of the immutable path -/
+theorem refQuery_after_query (b : Data) (hb : Consistent b) (c : CacheDB) (q q' : Query) :
+    (c.query b q).1.refQuery b q' = c.refQuery b q' := by
+  have hv := query_view b hb c q
+  cases q' with
+  | basic a => exact congrArg (fun v : Data => Reply.info (v.basic a)) hv
+  | storage a k => exact congrArg (fun v : Data => Reply.word (v.storage a k)) hv
+  | code h => exact congrArg (fun v : Data => Reply.code (v.code h)) hv
+  | blockHash n => exact congrArg (fun v : Data => Reply.word (v.blockHash n)) hv
+  | hasStorage a => rfl
 
 theorem loadAccount_view (b : Data) (hb : Consistent b) (c : CacheDB) (a : Addr) :
     (c.loadAccount b a).1.view b = c.view b := by
@@ -234,7 +265,7 @@ theorem insertContract_code (b : Data) (c : CacheDB) (i : Info) (hok : CodeOk c 
       | none =>
         simp only [hc, he, hk]
         funext x
-        simp only [CacheDB.view, upd]
+        simp only [CacheDB.view_def, upd]
         by_cases hx : x = codeKey i code <;> simp [upd, hx, he']
       | some old =>
         have := hok code hc he'
@@ -243,7 +274,7 @@ theorem insertContract_code (b : Data) (c : CacheDB) (i : Info) (hok : CodeOk c 
         subst hold
         simp only [hc, he, hk]
         funext x
-        simp only [CacheDB.view]
+        simp only [CacheDB.view_def]
         by_cases hx : x = codeKey i old
         · subst hx; simp [hk, he']
         · simp [hx, he']
@@ -271,7 +302,7 @@ theorem insertAccountInfo_view (b : Data) (c : CacheDB) (a : Addr) (i : Info)
   unfold CacheDB.insertAccountInfo setInfo
   apply Data.ext'
   · funext x
-    simp only [CacheDB.view, upd, CacheDB.orDefault, hacc]
+    simp only [CacheDB.view_def, upd, CacheDB.orDefault, hacc]
     by_cases hx : x = a
     · subst hx
       cases h : c.accounts x with
@@ -279,7 +310,7 @@ theorem insertAccountInfo_view (b : Data) (c : CacheDB) (a : Addr) (i : Info)
       | some acc => simp [h, DbAccount.infoOpt, hna acc h, hinfo]
     · simp [hx]
   · funext x k
-    simp only [CacheDB.view, upd, CacheDB.orDefault, hacc, addCode_storage]
+    simp only [CacheDB.view_def, upd, CacheDB.orDefault, hacc, addCode_storage]
     by_cases hx : x = a
     · subst hx
       cases h : c.accounts x with
@@ -289,7 +320,7 @@ theorem insertAccountInfo_view (b : Data) (c : CacheDB) (a : Addr) (i : Info)
   · exact hcode
   · simp only [addCode_blockHash]
     funext n
-    simp only [CacheDB.view, hbh]
+    simp only [CacheDB.view_def, hbh]
 
 theorem insertAccountStorage_view (b : Data) (hb : Consistent b) (c : CacheDB) (a : Addr) (k : Slot) (x : Nat) :
     (c.insertAccountStorage b a k x).view b = setSlot (c.view b) a k x := by
@@ -298,12 +329,12 @@ theorem insertAccountStorage_view (b : Data) (hb : Consistent b) (c : CacheDB) (
   | some acc =>
     apply Data.ext'
     · funext y
-      simp only [h, CacheDB.view, upd]
+      simp only [h, CacheDB.view_def, upd]
       by_cases hy : y = a
       · subst hy; simp [upd, h, DbAccount.infoOpt]
       · simp [hy]
     · funext y k'
-      simp only [h, CacheDB.view, upd]
+      simp only [h, CacheDB.view_def, upd]
       by_cases hy : y = a
       · subst hy
         by_cases hk : k' = k
@@ -315,13 +346,13 @@ theorem insertAccountStorage_view (b : Data) (hb : Consistent b) (c : CacheDB) (
   | none =>
     apply Data.ext'
     · funext y
-      simp only [h, CacheDB.view, upd]
+      simp only [h, CacheDB.view_def, upd]
       by_cases hy : y = a
       · subst hy
         cases hbx : b.basic y <;> simp [upd, h, hbx, DbAccount.ofOpt, DbAccount.infoOpt, DbAccount.newNotExisting, DbAccount.ofInfo]
       · simp [hy]
     · funext y k'
-      simp only [h, CacheDB.view, upd]
+      simp only [h, CacheDB.view_def, upd]
       by_cases hy : y = a
       · subst hy
         by_cases hk : k' = k
@@ -340,15 +371,15 @@ theorem replaceAccountStorage_view (b : Data) (c : CacheDB) (a : Addr) (m : List
   cases h : c.accounts a with
   | some acc =>
     have hst : acc.state ≠ .notExisting := by
-      intro hs; apply hex; simp [CacheDB.view, h, DbAccount.infoOpt, hs]
+      intro hs; apply hex; simp [CacheDB.view_def, h, DbAccount.infoOpt, hs]
     apply Data.ext'
     · funext y
-      simp only [h, CacheDB.view, upd]
+      simp only [h, CacheDB.view_def, upd]
       by_cases hy : y = a
       · subst hy; simp [h, DbAccount.infoOpt, hst]
       · simp [hy]
     · funext y k'
-      simp only [h, CacheDB.view, upd]
+      simp only [h, CacheDB.view_def, upd]
       by_cases hy : y = a
       · subst hy; cases hl : lookupSlot m k' <;> simp [hl, AccState.zeroUnknown]
       · simp [hy]
@@ -356,18 +387,18 @@ theorem replaceAccountStorage_view (b : Data) (c : CacheDB) (a : Addr) (m : List
     · rfl
   | none =>
     have hbx : b.basic a ≠ none := by
-      intro hs; apply hex; simp [CacheDB.view, h, hs]
+      intro hs; apply hex; simp [CacheDB.view_def, h, hs]
     cases hbi : b.basic a with
     | none => exact absurd hbi hbx
     | some i =>
       apply Data.ext'
       · funext y
-        simp only [h, CacheDB.view, upd]
+        simp only [h, CacheDB.view_def, upd]
         by_cases hy : y = a
         · subst hy; simp [h, hbi, DbAccount.ofOpt, DbAccount.infoOpt, DbAccount.ofInfo]
         · simp [hy]
       · funext y k'
-        simp only [h, CacheDB.view, upd]
+        simp only [h, CacheDB.view_def, upd]
         by_cases hy : y = a
         · subst hy; cases hl : lookupSlot m k' <;> simp [hl, AccState.zeroUnknown]
         · simp [hy]
@@ -384,10 +415,10 @@ theorem commitOne_view (b : Data) (c : CacheDB) (ch : Change) (hg : GoodChange b
   · simp only [ht, hsd, Bool.not_true, Bool.false_eq_true, if_false, if_true]
     apply Data.ext'
     · funext x
-      simp only [CacheDB.view, upd]
+      simp only [CacheDB.view_def, upd]
       by_cases hx : x = ch.addr <;> simp [hx, DbAccount.infoOpt]
     · funext x k
-      simp only [CacheDB.view, upd]
+      simp only [CacheDB.view_def, upd]
       by_cases hx : x = ch.addr <;> simp [hx, AccState.zeroUnknown]
     · rfl
     · rfl
@@ -400,7 +431,7 @@ theorem commitOne_view (b : Data) (c : CacheDB) (ch : Change) (hg : GoodChange b
     simp only [ht, hsd, Bool.not_true, Bool.false_eq_true, if_false]
     apply Data.ext'
     · funext x
-      simp only [CacheDB.view, upd, hacc]
+      simp only [CacheDB.view_def, upd, hacc]
       by_cases hx : x = ch.addr
       · simp only [hx, if_true]
         by_cases hcr : ch.created = true
@@ -410,7 +441,7 @@ theorem commitOne_view (b : Data) (c : CacheDB) (ch : Change) (hg : GoodChange b
           · simp [hcr, hcl, DbAccount.infoOpt, hinfo]
       · simp [hx]
     · funext x k
-      simp only [CacheDB.view, upd, hacc, addCode_storage]
+      simp only [CacheDB.view_def, upd, hacc, addCode_storage]
       by_cases hx : x = ch.addr
       · simp only [hx, if_true, extendStorage]
         cases hl : lookupSlot ch.storage k with
@@ -434,11 +465,11 @@ theorem commitOne_view (b : Data) (c : CacheDB) (ch : Change) (hg : GoodChange b
                 | notExisting =>
                   simp [hs, hstate, AccState.zeroUnknown, hst hcr' acc h hstate k hs]
       · simp [hx]
-    · simp only [CacheDB.view] at hcode ⊢
+    · simp only [CacheDB.view_def] at hcode ⊢
       exact hcode
     · simp only [addCode_blockHash]
       funext n
-      simp only [CacheDB.view, hbh]
+      simp only [CacheDB.view_def, hbh]
 
 theorem commit_view (b : Data) (chs : List Change) : ∀ (c : CacheDB), GoodCommit b c chs →
     (c.commit chs).view b = commit (c.view b) chs := by
@@ -481,7 +512,7 @@ theorem view_new (b : Data) (hb : Consistent b) : CacheDB.new.view b = b := by
   · rfl
   · rfl
   · funext h
-    simp only [CacheDB.view, CacheDB.new]
+    simp only [CacheDB.view_def, CacheDB.new]
     by_cases h1 : h = KECCAK_EMPTY
     · subst h1; simp [hb.code_empty]
     · by_cases h2 : h = 0
@@ -790,6 +821,7 @@ theorem stack_query (d : Db) : ∀ (q : DQuery), WF d → Ready d q →
     obtain ⟨hwi, hc⟩ := hw
     refine ⟨query_answer i.view.toData hc c q, ?_, hwi, hc⟩
     simp only [Db.query, Db.view, query_view i.view.toData hc c q.toQuery]
+    rfl
   | wrapRef i ih => intro q hw _; exact ⟨base_answer i.view q, rfl, hw⟩
   | fwd i ih =>
     intro q hw hr
